@@ -4,9 +4,11 @@ From Dials Require Export Base.Outcome Base.Runes Reflect.Ty Reflect.Ptrify Stac
 Import ListNotations.
 Open Scope N_scope.
 
+(* a sequence of stackings over the same defaults value (as the monitor
+   re-stacks): each round = the layers handed to compose and what it returned *)
 Inductive c01case :=
-| Stack (fs : fields) (defaults : list val) (layers : list val) (impl_ptrified : fields)
-        (impl : outcome (list val)).
+| StackSeq (fs : fields) (defaults : list val) (impl_ptrified : fields)
+           (rounds : list (list val * outcome (list val))).
 
 Definition vals_eqb (a b : list val) : bool := val_eqb (VList a) (VList b).
 
@@ -18,17 +20,23 @@ Definition out_eqb (a b : outcome (list val)) : bool :=
   | _, _ => false
   end.
 
+Definition check_round (fs : fields) (d : list val) (pfs : fields) (rd : list val * outcome (list val)) : N :=
+  let '(layers, impl) := rd in
+  let model := compose fs d layers in
+  let corr := out_eqb impl model && fields_eqb (ptrify_fields fs) pfs in
+  if supported_fields fs then
+    match impl with
+    | Ok r => if vals_eqb r (stack fs d layers) then (if corr then 0 else 1) else 3
+    | _ => 3
+    end
+  else if corr then 0 else 1.
+
+Fixpoint worst (l : list N) : N :=
+  match l with [] => 0 | x :: r => N.max x (worst r) end.
+
 Definition check (c : c01case) : N :=
   match c with
-  | Stack fs d layers pfs impl =>
-      let model := compose fs d layers in
-      let corr := out_eqb impl model && fields_eqb (ptrify_fields fs) pfs in
-      if supported_fields fs then
-        match impl with
-        | Ok r => if vals_eqb r (stack fs d layers) then (if corr then 0 else 1) else 3
-        | _ => 3
-        end
-      else if corr then 0 else 1
+  | StackSeq fs d pfs rounds => worst (map (check_round fs d pfs) rounds)
   end.
 
 Fixpoint run_from (i : N) (cs : list c01case) : list (N * N) :=
